@@ -139,6 +139,17 @@ OPAQUE = ("tao::pegtl::http::chunk", "tao::pegtl::http::chunk_data", "tao::pegtl
           "tao::pegtl::internal::raw_string_until<")
 
 
+def ia_params(args):
+    """harness actions vt::ia_v< N > / vt::ia_b< N > -> [kind, N, ...] (kind 1 void, 2 bool)"""
+    out = []
+    for a in args:
+        m = re.match(r"^vt::ia_([vb])<(\d+)>$", a)
+        if not m:
+            return None
+        out += [1 if m.group(1) == "v" else 2, int(m.group(2))]
+    return out
+
+
 def view_of(name):
     """documented view of a type name; kids are type-name strings.  None if unknown."""
     cn = canon(name)
@@ -252,9 +263,15 @@ def view_of(name):
     if b == "state" and args:
         return View("state", kids=args[1:], s=args[0])
     if b == "if_apply" and args:
-        return View("if_apply", kids=args[:1], s=",".join(args[1:]))
+        acts = ia_params(args[1:])
+        if acts is None:
+            return None
+        return View("if_apply", kids=args[:1], p=acts)
     if b in ("apply", "apply0"):
-        return View(b, s=",".join(args))
+        acts = ia_params(args)
+        if acts is None:
+            return None
+        return View(b, p=acts)
     return None
 
 
@@ -300,17 +317,23 @@ def build(rows, strict=False):
         if use.op == "try_catch_raise_nested":
             # Control< Rule >::raise_nested is called for the single sub-rule of the implementation
             p = p + [r["subs"][0] if r["subs"] else 0]
-        if use.op == "raise" and use.blame is not None:
-            # message names T: pegtl's own demangling of T if T is in the table, else the C++ name
-            tid = name2id.get(canon(use.blame))
-            s = rows[tid - 1]["dn"] if tid else use.blame
-            if tid and rows[tid - 1]["hasmsg"]:
-                r = dict(r, hasmsg=1, emsg=rows[tid - 1]["emsg"])
+        thas, tmsg = 0, ""
+        if use.op == "raise":
+            if use.blame is not None:
+                # raise< T >: Control< T >::raise names T -- pegtl's own demangling of T if T is in the table, else the C++ name
+                tid = name2id.get(canon(use.blame))
+                s = rows[tid - 1]["dn"] if tid else use.blame
+                if tid and rows[tid - 1]["hasmsg"]:
+                    thas, tmsg = 1, rows[tid - 1]["emsg"]
+            else:
+                # raise_message< Cs... > raises for itself
+                s = r["dn"]
+                thas, tmsg = r["hasmsg"], r["emsg"]
         iv = impl if impl is not None else View("opaque")
         nodes.append({
             "id": r["id"], "name": r["name"], "dn": r["dn"], "op": use.op, "kids": kids, "p": p, "s": s,
             "named": named, "en": r["en"], "vid": r["vid"], "ak": r["ak"], "sel": r["sel"],
-            "hasmsg": r["hasmsg"], "emsg": r["emsg"], "prop": prop_of(use.op),
+            "hasmsg": r["hasmsg"], "emsg": r["emsg"], "thas": thas, "tmsg": tmsg, "prop": prop_of(use.op),
             "iop": iv.op, "ikids": list(r["subs"]), "ip": list(iv.p),
         })
     return {"nodes": nodes}, unknown
